@@ -122,13 +122,33 @@ func (p progImporter) Import(path string) (*types.Package, error) {
 // symbols the configuration names.
 func (m *Machine) vfTypeErrors(code Value, allowed Value) Value {
 	ct := toTerm(forceLazy(code))
-	text, _ := m.skeletonOf(ct)
-	al, _ := forceLazy(allowed).(string)
+	text, holes := m.skeletonOf(ct)
+	// holes are numbered per occurrence; for name resolution the same term must
+	// be the same identifier
+	canon := map[string]int{}
+	text = holeRe.ReplaceAllStringFunc(text, func(h string) string {
+		sm := holeRe.FindStringSubmatch(h)
+		if sm[2] == "" {
+			return h
+		}
+		n, _ := strconv.Atoi(sm[2])
+		key := holes[n].SMT()
+		if c, ok := canon[key]; ok {
+			return fmt.Sprintf("VFH%dH", c)
+		}
+		canon[key] = n
+		return h
+	})
+	al, ok := forceLazy(allowed).(string)
+	if !ok {
+		// symbolic parts of the list are holes, accepted below by their placeholder name
+		al, _ = m.skeletonOf(toTerm(forceLazy(allowed)))
+	}
 	set := map[string]bool{}
 	for _, a := range strings.Fields(al) {
 		set[a] = true
 	}
-	errs := skel.TypeErrors(text, progImporter{m.Prog}, func(n string) bool { return set[n] })
+	errs := skel.TypeErrors(text, progImporter{m.Prog}, func(n string) bool { return set[n] || strings.Contains(n, "VFH") })
 	var out []Value
 	for _, e := range errs {
 		out = append(out, e)
